@@ -8,7 +8,7 @@ import common as C
 import programs as P
 
 PID = "C04"
-THEOREMS = ["climb_total", "arith_in_range", "range_elements_in_range"]
+THEOREMS = ["climb_total", "arith_in_range", "range_elements_in_range", "translate_no_bug", "lex_total"]
 STAGES = ["tokenize", "parse", "check", "translate", "eval", "fmt"]
 
 TOKEN_RE = re.compile(r'"(?:\\.|[^"\\])*"|//[^\n]*|[A-Za-z_][A-Za-z0-9_-]*|\d+|==|=>|>=|<=|!=|!~|&&|\|\||%%|::|\.\.|\s+|.', re.S)
